@@ -21,6 +21,11 @@ def generate_all():
     except rust_abi.TranslateError as ex:
         errs.append('server_dispatch: %s' % ex)
     try:
+        import server_handlers              # handler bodies -> Gen/RustHandlers.v (C02)
+        write_if_changed(os.path.join(COQ, 'Gen/RustHandlers.v'), server_handlers.emit_coq(server_handlers.translate(REPO)))
+    except (rust_abi.TranslateError, Exception) as ex:
+        errs.append('server_handlers: %s' % ex)
+    try:
         import server_async_dispatch
         write_if_changed(os.path.join(COQ, 'Gen/RustAsyncDispatch.v'), server_async_dispatch.emit_coq(server_async_dispatch.translate(REPO)))
     except rust_abi.TranslateError as ex:
@@ -45,6 +50,11 @@ def generate_all():
         async_transport.generate(REPO)
     except Exception as ex:
         errs.append('async_transport: %s' % ex)
+    try:
+        import rust_pure                    # function bodies of small pure functions -> Gen/RustPure.v (Cxx_src_* theorems)
+        for e in rust_pure.generate(REPO, COQ, write_if_changed): errs.append('rust_pure: %s' % e)
+    except Exception as ex:
+        errs.append('rust_pure: %s' % ex)
     return errs
 
 if __name__ == '__main__':
